@@ -4,6 +4,7 @@ import NbioVerif.Lemmas.C08Engine
 import NbioVerif.Lemmas.C06Chain
 import NbioVerif.Lemmas.BodyReader
 import NbioVerif.Lemmas.BodyOwn
+import NbioVerif.Lemmas.C06Bridge
 /-! C08: parser robustness and bounds (model level).
 
 * `c08_no_hang`        the Go-shaped index loop never runs out of fuel (fuel = |buf|+1), i.e. the
@@ -87,7 +88,7 @@ theorem feedAllL_no_fuel (M : Machine σ ε) (wf : WF M) (hE : ErrIn M (· ≠ 9
   | cons seg segs ih =>
     intro st cache acc hg acc' h
     simp only [feedAllL, parseLC_eq] at h
-    by_cases ht : cache ≠ [] ∧ limit > 0 ∧ cache.length + seg.length > limit
+    by_cases ht : seg ≠ [] ∧ cache ≠ [] ∧ limit > 0 ∧ cache.length + seg.length > limit
     · simp [parseL, ht] at h
     · simp only [parseL, ht, if_false] at h
       cases hr : implParse M st cache seg acc with
@@ -166,10 +167,12 @@ theorem c08_content_length (p p' : P) (v : Bytes) (rest : List Bytes) (h : endOf
       ∀ w ∈ rest, trimRightSpaces w = trimRightSpaces v :=
   cl_accepted p p' v rest h hte hcl
 
-/-- C08: Content-Length garbage is rejected also when `Transfer-Encoding: chunked` overrides the length. -/
+/-- C08: Content-Length garbage is rejected also when `Transfer-Encoding: chunked` overrides the length: every accepted
+    header section's Content-Length values spell one number that parses, is non-negative and below 2^62. -/
 theorem c08_content_length_any (p p' : P) (v : Bytes) (rest : List Bytes) (h : endOfHeaders p = .ok p')
     (hcl : p.cl = v :: rest) :
-    clShape (trimRightSpaces v) = true ∧ ∀ w ∈ rest, trimRightSpaces w = trimRightSpaces v :=
+    clShape (trimRightSpaces v) = true ∧ (∀ w ∈ rest, trimRightSpaces w = trimRightSpaces v) ∧
+      ∃ l : Int, parseCLValue (trimRightSpaces v) = some l ∧ 0 ≤ l ∧ l < 2 ^ 62 :=
   cl_accepted_any p p' v rest h hcl
 
 /-- C08: the chunk-size line is `HEXDIG+ (SP|HTAB)* [";" extension] CR`: any other byte at the place concerned is
@@ -365,13 +368,27 @@ theorem c08_parseE_silent (M : Machine σ ε) (limit : Nat) (pc : PC σ) (d : By
   have hq : ({ q with closed := true } : PC σ) = q := by cases q; simp_all
   simp [parseE, parse_closed M limit q d' hc, hq]
 
-/-- the bare parser is NOT silent after an error: without the glue's `CloseAndClean`, `Parse` continues from the state it
-    was in (this is why every reader must close: DESIGN 8 #12 was the blocking reader not doing it) -/
+/-- the bare parser is NOT silent after an error: without the glue's `CloseAndClean`, a second `Parse` call on the very
+    parser the failed call left behind goes on emitting events (this is why every reader must close: DESIGN 8 #12 was
+    the blocking reader not doing it). (In the model a failed call leaves the parser's fields as they were before the
+    call, in Go as they were when the error was met; neither is closed, which is the point.) -/
 theorem c08_bare_parser_not_silent :
     ∃ (g : Http.Cfg) (d1 d2 : Bytes),
-      (match (implParse (Http.machine g) (Http.init g) [] d1 []).fin with | .inr e => e | .inl _ => 0) = 2 ∧
-      (implParse (Http.machine g) (Http.init g) [] d2 []).evs.length = 5 :=
-  ⟨Http.g0, [1], Http.str "GET / HTTP/1.1\r\n\r\n", by decide, by decide⟩
+      let pc0 : PC Http.P := { st := Http.init g, cache := [] }
+      (parse (Http.machine g) 0 pc0 d1).2.2 = some 2 ∧
+      (parse (Http.machine g) 0 pc0 d1).1.closed = false ∧
+      (parse (Http.machine g) 0 (parse (Http.machine g) 0 pc0 d1).1 d2).2.1.length = 5 ∧
+      (parse (Http.machine g) 0 (parse (Http.machine g) 0 pc0 d1).1 d2).2.2 = none :=
+  ⟨Http.g0, [1], Http.str "GET / HTTP/1.1\r\n\r\n", by decide, by decide, by decide, by decide⟩
+
+/-- **C08/C06 bridge (what the driver's D lines run).** The chain of `parseE` calls, one per read, from a fresh HTTP
+    parser is `feedAllL`: same events; same final (state, cache) and no failed call — or the same first error, the
+    parser closed from that call on, nothing emitted afterwards. Hence `c08_no_hang_chain`, `c08_retained_chain`,
+    `c08_no_nil_deref_chain`, `c06_http_driver`, `c06_messages` speak about the function the D lines execute. -/
+theorem c08_dlines_are_feedAllL (g : Http.Cfg) (limit : Nat) (segs : List Bytes) :
+    ChainIs (Scan.feedAllL (Http.machine g) limit (Http.init g) [] segs [])
+      (chainE (Http.machine g) limit { st := Http.init g, cache := [] } segs [] none) :=
+  chainE_eq_feedAllL (Http.machine g) limit segs (Http.init g) [] []
 
 /-- non-vacuity: a malformed request followed by a valid one, in two reads, on the real state table: the valid
     request's events never appear, one connClose, in both plain modes -/
